@@ -96,6 +96,9 @@ def make_case(seed, shard_index, i, kind, opts=None):
         if rng.random() < 0.25:
             case["pretext_crlf"] = True
             labels.add("in:pretext-text-with-crlf")
+        if float(t).is_integer() and rng_for(seed, "texel-header", shard_index, i).random() < 0.5:
+            case["texel_header_plain"] = True
+            labels.add("in:texel-resolution-without-decimals")
         if case["via_text"] == "agp" and rng.random() < 0.5:
             case["agp_variant"] = rng.choice(["v1.1-gaps", "component-types", "known-length-gaps"])
             labels.add(f"in:agp-{case['agp_variant']}")
@@ -106,6 +109,9 @@ def make_case(seed, shard_index, i, kind, opts=None):
     if opts.get("no_join_gap") and rng.random() < opts["no_join_gap"]:
         case["no_join_gap"] = True
         labels.add("cfg:no-join-gap-configured")
+    if rng_for(seed, "prefix-set-again", shard_index, i).random() < 0.1:
+        case["prefix_set_again"] = True
+        labels.add("cfg:prefix-assigned-again-after-remap")
     case["labels"] = sorted(labels)
     return case
 
@@ -121,6 +127,9 @@ def build_inputs(case):
         from tola.assembly.parser import parse_agp
 
         ptxt = gpv.pretext_agp_text(case["pretext"], t)
+        if case.get("texel_header_plain") and float(t).is_integer():
+            # a whole-number resolution written without decimals ("250 bp/texel"), as other writers of this header do
+            ptxt = ptxt.replace(f"{t:.6f} bp/texel", f"{int(t)} bp/texel")
         if case.get("pretext_crlf"):
             ptxt = ptxt.replace("\n", "\r\n")  # a map saved on / passed through a system with CRLF line ends
         pa = parse_agp(io.StringIO(ptxt, newline=""), "p")
@@ -177,6 +186,9 @@ def run_case(case):
             ba = BuildAssembly("out", default_gap=Gap(JOIN_GAP[1], JOIN_GAP[2]), autosome_prefix=case.get("prefix", "SUPER_"))
         res["ba"] = ba
         ba.remap_to_input_assembly(pa, ia)
+        if case.get("prefix_set_again"):
+            # the caller assigns the chromosome prefix (to the value it has) between the two steps
+            ba.autosome_prefix = ba.autosome_prefix
         out = ba.assemblies_with_scaffolds_fused()
         res["out_obj"] = out
         res["out"] = dump_assemblies(out)
@@ -188,6 +200,26 @@ def run_case(case):
         res["exc"] = {"type": et, "fn": fn, "msg": str(e)[:600]}
         res["exc_obj"] = e
     return res
+
+
+def remap_objects(case, pa, ia):
+    """One remap + fuse on the objects given (which the caller may have used before); -> ("ok", dump) or ("exc", type)."""
+    from tola.assembly.build_assembly import BuildAssembly
+    from tola.assembly.gap import Gap
+
+    try:
+        ba = BuildAssembly("out", default_gap=Gap(JOIN_GAP[1], JOIN_GAP[2]), autosome_prefix=case.get("prefix", "SUPER_"))
+        ba.remap_to_input_assembly(pa, ia)
+        return ("ok", dump_assemblies(ba.assemblies_with_scaffolds_fused()))
+    except Exception as e:  # noqa: BLE001
+        return ("exc", type(e).__name__)
+
+
+SET_ASIDE = ("Haplotig", "Contaminant", "FalseDuplicate")
+
+
+def without_set_aside_tags(pretext):
+    return [[n, [r if r[0] == "G" else [*r[:5], [x for x in r[5] if x not in SET_ASIDE]] for r in rows]] for n, rows in pretext]
 
 
 def run_remap_batch(shard, ctx, kinds=("pv",), oracle=None, opts=None):
